@@ -20,12 +20,14 @@ func (q *AtomicLIFO[T]) Push(value T) {
 	newNode := &atomicLIFONode[T]{value: value}
 
 	for {
+		verifPoint(3, q)
 		// Read the current top.
 		oldTop := q.top.Load()
 
 		// Set the next of the new atomicLIFONode to the current top.
 		newNode.next = oldTop
 
+		verifPoint(0, q)
 		// Try to set the new atomicLIFONode as the new top.
 		if q.top.CompareAndSwap(oldTop, newNode) {
 			break
@@ -37,6 +39,7 @@ func (q *AtomicLIFO[T]) Push(value T) {
 // It returns the zero value (nil) if the LIFO is empty.
 func (q *AtomicLIFO[T]) Pop() T {
 	for {
+		verifPoint(2, q)
 		// Read the current top.
 		oldTop := q.top.Load()
 		if oldTop == nil {
@@ -47,6 +50,7 @@ func (q *AtomicLIFO[T]) Pop() T {
 		// Read the next atomicLIFONode after the top.
 		next := oldTop.next
 
+		verifPoint(1, q)
 		// Try to set the next atomicLIFONode as the new top.
 		if q.top.CompareAndSwap(oldTop, next) {
 			return oldTop.value
